@@ -231,7 +231,16 @@ impl<S: PageSize> Iterator for PhysFrameRangeInclusive<S> {
     fn next(&mut self) -> Option<Self::Item> {
         if self.start <= self.end {
             let frame = self.start;
-            self.start += 1;
+
+            // If start is the maximum frame possible for size S, incrementing it would exceed
+            // the 52-bit physical address space. So instead, in that case we decrement end
+            // rather than incrementing start.
+            let max_frame_addr = PhysAddr::new_truncate(u64::MAX).align_down_u64(S::SIZE);
+            if self.start.start_address() < max_frame_addr {
+                self.start += 1;
+            } else {
+                self.end -= 1;
+            }
             Some(frame)
         } else {
             None
